@@ -208,8 +208,12 @@ class _Gen:
         budget = 60 if alpha == 1 else 200
         if tiny_budget:
             budget = rng.choice([1, 1, 2, 3])
-        form = rng.choice(["iter", "stage", "both"]) if "iter" in K else "iter"
-        if form == "iter":
+        form = rng.choice(["iter", "stage", "both", "none"]) if "iter" in K else "iter"
+        if form == "none" and (tiny_budget or alpha != 1):
+            form = "iter"
+        if form == "none":
+            pass    # the budget comes from the stored user options or the defaults
+        elif form == "iter":
             kw["iter"] = budget
         elif form == "stage":
             kw.update(max_iter_hyd=budget, max_iter_therm=budget, max_iter_bidirect=budget)
@@ -375,6 +379,14 @@ class _Gen:
             cands.append((t, i, c, "scale"))
         for (t, i, c) in self.meta["toggles"]:
             cands.append((t, i, c, "toggle"))
+        if self.meta["fluid"] == "water" and not self.program.get("fluid_spec") and rng.random() < 0.12 and "fluid:density" not in self.values:
+            # a property of the Fluid object replaced in place (restored by the undo)
+            which = rng.choice(["density", "viscosity"])
+            val = {"density": rng.choice([850.0, 970.0]), "viscosity": rng.choice([5e-4, 1.2e-3])}[which]
+            self.values["fluid:" + which] = val
+            self.pending_undo.append(("__fluid__", which, None, None))
+            self.dirty_since_hyd = True
+            return [{"op": "fluidprop", "prop": which, "val": val}]
         if not cands:
             return []
         if self.prop == "C07" and rng.random() < 0.8:
@@ -398,6 +410,13 @@ class _Gen:
         out = []
         while self.pending_undo:
             (t, i, c, old) = self.pending_undo.pop()
+            if t == "__fluid__":
+                self.values.pop("fluid:" + i, None)
+                out.append({"op": "fluidprop", "prop": i, "val": None})
+                self.dirty_since_hyd = True
+                if not all_:
+                    break
+                continue
             self.values[(t, i, c)] = old
             if isinstance(old, bool):
                 self.topo_dirty = True
@@ -426,7 +445,7 @@ class _Gen:
             for k in rng.sample(keys, min(len(keys), rng.randint(0, 3))):
                 kw[k] = full[k]
             if rng.random() < 0.3:
-                kw["iter"] = rng.choice([40, 80])
+                kw["iter"] = rng.choice([40, 80, 80, 1, 2, 3])
             if rng.random() < 0.15 and self.meta["thermal"]:
                 kw["mode"] = rng.choice(["sequential", "all"])
         return {"op": "setopt", "reset": reset, "kw": kw}
@@ -685,6 +704,7 @@ def _execute(trace, res, prop, program, meta, ops, solver, fs):
     if prop == "C07":
         replicas = _make_replicas(program, trace)
     overlay = {}                 # (table, idx, col) -> val   : the description's edit layer
+    fluid_overlay = {}           # property name -> constant value currently replacing the fluid's own property
     user_model = {}              # model of net.user_pf_options (without hyd_flag)
     hyd_flag_model = None        # None = never set
     last_calc = None
@@ -696,7 +716,7 @@ def _execute(trace, res, prop, program, meta, ops, solver, fs):
         return [(t, i, c, overlay[(t, i, c)]) for (t, i, c) in sorted(overlay, key=lambda k: (k[0], k[1], k[2]))]
 
     def twin_run(kw, mode_override=None):
-        twin = netmodel.realise(program, overlay_list())
+        twin = netmodel.realise(program, overlay_list(), fluid_overlay)
         if user_model:
             twin["user_pf_options"] = copy.deepcopy(user_model)
         k2 = dict(kw)
@@ -731,6 +751,30 @@ def _execute(trace, res, prop, program, meta, ops, solver, fs):
                 for s_ in replicas:
                     s_.topology_dirty = True
             res.sig_parts.append("E")
+            continue
+
+        # --------------------------------------------------------------------------------
+        if kind == "fluidprop":
+            # the Fluid object is altered in place (and later restored): "altered-and-restored parameters"
+            for s in [live, shadow] + replicas:
+                if s is not None:
+                    if not hasattr(s, "fluid_originals") or getattr(s, "fluid_originals_net", None) is not s.net:
+                        s.fluid_originals, s.fluid_originals_net = {}, s.net
+                    if op["val"] is None and op["prop"] not in s.fluid_originals:
+                        # (after a restart the replaced object is gone: put back what a fresh net holds)
+                        fresh = netmodel.build({"fluid": program["fluid"], "fluid_spec": program.get("fluid_spec"), "ops": []})
+                        s.net.fluid.add_property(op["prop"], fresh.fluid.all_properties[op["prop"]], overwrite=True, warn_on_duplicates=False)
+                    else:
+                        netmodel.apply_fluid_edit(s.net, op["prop"], op["val"], s.fluid_originals)
+            if op["val"] is None:
+                fluid_overlay.pop(op["prop"], None)
+            else:
+                fluid_overlay[op["prop"]] = op["val"]
+            live.stored_sol = None
+            live.last_res = None
+            reuse_ok = reuse_ok   # (the matrix structure does not depend on fluid properties)
+            res.sig_parts.append("F")
+            res.count("probe:fluid-property-edit")
             continue
 
         # --------------------------------------------------------------------------------
@@ -839,7 +883,7 @@ def _execute(trace, res, prop, program, meta, ops, solver, fs):
                     res.violate("C05", sig, det, oi)
             for sig, det in budget_exceeded(records, opts_model):
                 res.violate("C05", sig, det, oi)
-            bad = _nonfinite_supplied(live.net, mode)
+            bad = _nonfinite_supplied(live.net, mode, getattr(live, "hyd_mdot", None) if heat_stored else None)
             for b in bad:
                 res.violate("C05", "C05/returned-nonfinite:%s@%s" % (b, mode), "", oi)
             res.oracle_checks += 1
@@ -906,6 +950,15 @@ def _execute(trace, res, prop, program, meta, ops, solver, fs):
                     d = [x for x in netmodel.results_equal_bitwise(live.net, twin) if x.split(".")[-1] in THERMAL_COLS]
                     for x in d:
                         res.violate("C12", "C12/heat-from-stored-differs:%s%s" % (_strip(x), circ), x, oi)
+                    # C05: an element that gets a temperature in the stand-alone sequential run is supplied - the
+                    # thermal-only run that returned normally must report a finite temperature for it as well
+                    for x in d:
+                        t_, c_ = x.split(".")[0], x.split(".")[-1]
+                        if t_ in live.net and t_ in twin and c_ in live.net[t_] and len(live.net[t_]) == len(twin[t_]):
+                            a_ = live.net[t_][c_].values.astype(float)
+                            b_ = twin[t_][c_].values.astype(float)
+                            if np.any(~np.isfinite(a_) & np.isfinite(b_)):
+                                res.violate("C05", "C05/returned-nonfinite:%s.%s@heat" % (t_, c_), "NaN where the sequential twin has a value", oi)
                     res.count("probe:heat-from-stored-compared")
                 elif tout != outcome:
                     res.violate("C12", "C12/heat-from-stored-differs:outcome%s" % circ, "%s vs twin %s" % (outcome, tout), oi)
@@ -963,6 +1016,8 @@ def _execute(trace, res, prop, program, meta, ops, solver, fs):
             last_calc = op
         if outcome == "ok" and mode == "hydraulics" and not faulted:
             live.stored_sol = _sol_vec(live.net)
+            live.hyd_mdot = {t_: live.net[t_]["mdot_from_kg_per_s"].copy() for t_ in netmodel.result_tables(live.net)
+                             if "mdot_from_kg_per_s" in live.net[t_]}
         elif not heat_stored:
             live.stored_sol = None
         if mode == "heat" and outcome == "ok":
@@ -1004,15 +1059,47 @@ def _digest_diff(a, b):
     return out
 
 
-def _nonfinite_supplied(net, mode):
+def _nonfinite_thermal(net, hyd_mdot=None):
+    """After a thermal calculation every in-service branch that carries flow between two calculated junctions reports
+    finite end temperatures.  (Stagnant branches and junctions no temperature source feeds into are reported with NaN /
+    the ambient default by design; which part is thermally supplied is not re-decided here.)  hyd_mdot: branch mass
+    flows of the hydraulic calculation a thermal-only run started from (such a run reports no mass flows itself)."""
+    bad = []
+    rj = net.get("res_junction")
+    if rj is None or not len(rj) or "t_k" not in rj:
+        return bad
+    tk = rj.t_k.values.astype(float)
+    if np.any(np.isinf(tk)):
+        bad.append("res_junction.t_k:inf")
+    # (a junction outside the supplied part is reported with the ambient default as temperature and no pressure)
+    supplied = set(rj.index[np.isfinite(tk) & np.isfinite(rj.p_bar.values.astype(float))])
+    for t in netmodel.result_tables(net):
+        el = t[4:]
+        if el not in net or not len(net[el]) or el in ("valve", "junction"):
+            continue
+        df, rt = net[el], net[t]
+        cols = [c for c in ("from_junction", "to_junction") if c in df] or [c for c in ("return_junction", "flow_junction") if c in df]
+        if len(cols) != 2 or "t_from_k" not in rt or "t_to_k" not in rt:
+            continue
+        ins = df.in_service.values.astype(bool) if "in_service" in df else np.ones(len(df), bool)
+        sup = np.array([(a in supplied) and (b in supplied) for a, b in zip(df[cols[0]].values, df[cols[1]].values)], bool)
+        msrc = hyd_mdot.get(t) if hyd_mdot is not None else (rt["mdot_from_kg_per_s"] if "mdot_from_kg_per_s" in rt else None)
+        if msrc is None or len(msrc) != len(rt) or list(msrc.index) != list(rt.index):
+            continue
+        flowing = np.abs(msrc.values.astype(float)) > 1e-6
+        rows = ins & sup & flowing
+        for c in ("t_from_k", "t_to_k"):
+            v = rt[c].values.astype(float)[rows]
+            if np.any(~np.isfinite(v)):
+                bad.append("%s.%s" % (t, c))
+    return bad
+
+
+def _nonfinite_supplied(net, mode, hyd_mdot=None):
     """Supplied in-service elements must have finite hydraulic results after a normal return."""
     bad = []
     if mode == "heat" or "res_junction" not in net:
-        rj = net.get("res_junction")
-        if rj is not None and len(rj) and "t_k" in rj and mode == "heat":
-            # thermal-only: judged on temperatures of junctions that got one
-            pass
-        return bad
+        return bad   # thermal-only run: judged against the twin's sequential run (see the heat-from-stored comparison)
     rj = net.res_junction
     p = rj.p_bar.values.astype(float)
     if np.any(np.isinf(p)):
@@ -1049,6 +1136,8 @@ def _nonfinite_supplied(net, mode):
             if np.any(~np.isfinite(v)):
                 bad.append("%s.mdot_kg_per_s" % t)
     if mode in ("sequential", "bidirectional"):
+        # (which part of the net is *thermally* supplied is not re-decided here: islands without a temperature source
+        # and stagnant branches are reported with NaN / the ambient default by design)
         tk = rj.t_k.values.astype(float)
         if np.any(np.isinf(tk)):
             bad.append("res_junction.t_k:inf")
